@@ -40,7 +40,7 @@ Proof. unfold placed_item_digests, pdig. apply flat_map_ext. intros pd. destruct
 
 (* the post-pass checks succeed on the final view *)
 Lemma post_checks_ok ds placed :
-  Forall (placed_ok H enc t R0 (own ds) ds) placed -> NoDup (map pdig placed) ->
+  Forall (placed_ok H enc show_nat t R0 (own ds) ds) placed -> NoDup (map pdig placed) ->
   exists seen seen', insert_all (placed_item_digests placed) [] = Ok seen /\
                      check_digests 129 (view (own ds) t) seen = Ok seen'.
 Proof.
@@ -58,7 +58,7 @@ Proof.
     + apply NoDup_rev. assumption.
     + intros g Hc Hp. apply in_rev in Hp. unfold placed_item_digests in Hp. apply in_flat_map in Hp as [pd [Hpd Hg]].
       destruct (d_key (snd pd)) eqn:Ek; [destruct Hg|]. destruct Hg as [<-|[]].
-      rewrite Forall_forall in Hpl. destruct (Hpl pd Hpd) as (_ & Ho & R1 & _ & Hmono & Hex).
+      rewrite Forall_forall in Hpl. destruct (Hpl pd Hpd) as (_ & Ho & R1 & _ & Hmono & Hex & _).
       rewrite Ek in Hex.
       pose proof (Exposed_oitems H enc R1 (own ds) _ _ t Hex Hmono Ho) as Hoi.
       pose proof (cnt_view H enc (own ds) (d_digest (snd pd)) t Hwf). pose proof (cnt_nodup (d_digest (snd pd)) _ Hnd).
@@ -69,21 +69,40 @@ Qed.
 (* C03 / C08 / C12 core at full strength: for every duplicate-free list of presented strings, in any
    order, none of which hashes to a decoy: when all of them decode, the complete restore_disclosures accepts
    and returns exactly the view of the presented set *)
-Theorem restore_full_ok L ds :
+(* what the returned path list says: every entry is a presented disclosure together with the path of the
+   hidden node it opens; no disclosure is reported twice; and the final state Rf of the loop (whose view is
+   the returned one) only contains digests that were reported and has nothing presented left exposed *)
+Theorem restore_full_ok_paths L ds :
   NoDup L -> (forall s, In s L -> In (H s) (alldigs t) -> In (H s) (hdigs t)) ->
   decode_all H dec L = Ok ds ->
-  exists ps, restore_disclosures H dec show_nat (blind t) L = Ok (view (ownS H L) t, ps).
+  exists ps, restore_disclosures H dec show_nat (blind t) L = Ok (view (ownS H L) t, ps) /\
+    Forall (fun pd : dpath => In (snd pd) ds /\ NodePath H enc show_nat (d_digest (snd pd)) t (fst pd)) ps /\
+    NoDup (map pdig ps) /\
+    exists Rf, (forall g, Rf g = true -> In g (map pdig ps)) /\
+               (forall g k v, Exposed H enc Rf g k v t -> own ds g = false) /\
+               (forall g, Rf g = true -> own ds g = true).
 Proof.
   intros HndL Hdecoy Ed. unfold restore_disclosures, restore_passes. rewrite Ed. cbn [bind].
   destruct (decode_all_spec H enc dec hash_inj dec_enc t Hwf L ds Ed Hdecoy) as [Hm HF].
   assert (Hndd : NoDup (map d_digest ds)).
   { rewrite Hm. clear -HndL hash_inj. induction HndL as [|s r Hni _ IH]; cbn; constructor; [|assumption].
     intros Hin. apply in_map_iff in Hin as [s' [Hq Hs']]. apply hash_inj in Hq. subst. contradiction. }
-  destruct (restore_all H enc show_nat t Hwf Hnd Hndh Hheight ds HF Hndd) as (placed & Hps & Hpl & Hndp).
+  destruct (restore_all H enc show_nat t Hwf Hnd Hndh Hheight ds HF Hndd) as (placed & Hps & Hpl & Hndp & Rf & Hgrow & Hnoex & Hsub).
   rewrite <- (view_R0_blind H enc), Hps. cbn [bind].
   destruct (post_checks_ok ds placed Hpl Hndp) as (seen & seen' & Hi & Hc).
   rewrite Hi. cbn [bind]. rewrite Hc. cbn [bind].
-  exists placed. f_equal. f_equal. apply view_ext. intros g _. apply own_ownS. assumption.
+  exists placed. split; [f_equal; f_equal; apply view_ext; intros g _; apply own_ownS; assumption|].
+  split.
+  { eapply Forall_impl; [|exact Hpl]. intros pd (Hin & _ & R1 & _ & _ & _ & Hnp). split; assumption. }
+  split; [assumption|]. exists Rf. auto.
+Qed.
+
+Theorem restore_full_ok L ds :
+  NoDup L -> (forall s, In s L -> In (H s) (alldigs t) -> In (H s) (hdigs t)) ->
+  decode_all H dec L = Ok ds ->
+  exists ps, restore_disclosures H dec show_nat (blind t) L = Ok (view (ownS H L) t, ps).
+Proof.
+  intros HndL Hdecoy Ed. destruct (restore_full_ok_paths L ds HndL Hdecoy Ed) as (ps & Hps & _). eauto.
 Qed.
 
 (* ... and in general it rejects or returns that view *)
